@@ -517,13 +517,13 @@ def gen_script(rng, kind, nV, nF, nCorn, nCells, ncalls):
         return [rng.random() < 0.5, rng.random() < 0.5]
     pool = []
     if kind == "vol":
-        pool = [["cell_volume"] + pd(), ["cell_bary"] + pd(), ["mean_vol", None], ["mean_vol", rng.randint(1, max(1, nCells))],
+        pool = [["cell_volume"] + pd(), ["cell_bary"] + pd(), ["mean_vol", None], ["mean_vol", rng.randint(1, max(1, 2 * nCells))],
                 ["edge_length"] + pd(), ["edge_middle"] + pd(), ["degree"] + pd(), ["bary"], ["mean_edge", None],
                 ["face_area"] + pd(), ["face_bary"] + pd(), ["mean_area", None]]
     else:
         pool = [["edge_length"] + pd(), ["edge_middle"] + pd(), ["face_area"] + pd(), ["face_normals"] + pd(), ["face_bary"] + pd(),
-                ["angles"] + pd(), ["degree"] + pd(), ["euler"], ["mean_edge", None], ["mean_edge", rng.randint(1, 6)],
-                ["mean_area", None], ["mean_area", rng.randint(1, max(1, nF))], ["total_area"], ["bary"]]
+                ["angles"] + pd(), ["degree"] + pd(), ["euler"], ["mean_edge", None], ["mean_edge", rng.randint(1, 2 * nF + 4)],
+                ["mean_area", None], ["mean_area", rng.randint(1, max(1, 2 * nF))], ["total_area"], ["bary"]]
         for w in ("uniform", "area", "angle"):
             pool.append(["vnormals", w] + pd())
         if kind == "tri":
